@@ -107,14 +107,17 @@ def check(beh):
                         op.diagonalization()
                     except Exception:  # noqa
                         pass
-                if q == "sample_ciq":
+                if q == "sample_ciq_precond":
+                    st.enter_context(S.min_preconditioning_size(0))
+                    st.enter_context(S.max_preconditioner_size(2))
+                if q in ("sample_ciq", "sample_ciq_precond"):
                     st.enter_context(S.ciq_samples(True))
                     st.enter_context(S.num_contour_quadrature(25))
                     st.enter_context(S.minres_tolerance(1e-8))
                 msg = numeric.sampling_covariance_check(lambda: op.zero_mean_mvn_samples(k), A, k, dtype,
-                                                         "direct" if d["exact"] and q != "sample_ciq" else "lanczos",
-                                                         affine_base=(1234 + d["id"]) if q == "sample_ciq" else None)
-                if msg and not d["exact"] and q != "sample_ciq" and "differs from the represented matrix" in msg:
+                                                         "direct" if d["exact"] and not q.startswith("sample_ciq") else "lanczos",
+                                                         affine_base=(1234 + d["id"]) if q.startswith("sample_ciq") else None)
+                if msg and not d["exact"] and not q.startswith("sample_ciq") and "differs from the represented matrix" in msg:
                     # Lanczos root (possibly truncated / broken down on a degenerate summand): its accuracy is C06 / C09's subject;
                     # the sampler-level facts (shape, independence across samples and batch members) were still checked
                     msg = None
@@ -230,7 +233,7 @@ def run(tier, seed, prop=PROP, only_sampling=False):
     behs = sorted(r["out"], key=lambda b: b["desc"]["id"])
     behs = [b for b in behs if (b["desc"]["relation"] == "cov") == only_sampling]
     if only_sampling and tier == "quick":
-        behs = [b for b in behs if b["desc"]["query"] != "sample_ciq" or b["desc"]["id"] % 3 == 0]
+        behs = [b for b in behs if b["desc"]["query"] != "sample_ciq" or b["desc"]["id"] % 3 == 0]      # (sample_ciq_precond: all kept)
     b0 = copy.deepcopy(next(b for b in behs if b["desc"]["exact"] and b["desc"]["cls"] == "Dense" and
                             b["desc"]["query"] in ("cholesky", "sample") and b["desc"]["thr"]["max_chol"] == 800))
     b0["dense"]["data"][1] += 2
